@@ -9,11 +9,13 @@
    Interfaces key-envelope definition.  Requests are described by what the repository's own
    decoders make of them ([typed_decode], [unmarshal_text]): every textual spelling of the hex fields
    (upper / lower case, 0x prefix) is covered.  [kek_supported k]: no KEK, or an AES-128 KEK.
-   [cf_canonical cf]: no CFList, or 16 bytes that decode and re-encode to themselves
-   (C16_cflist_channels: every 16-byte CFList whose type byte is not 1). *)
+   [cf_canonical cf]: no CFList, or 16 bytes that decode and re-encode to themselves; C16_cflist shows
+   that every well-formed CFList is (any 16 octets of a type other than 1; type 1 = channel masks with
+   the three RFU octets zero). *)
 From Coq Require Import List NArith ZArith Bool Permutation.
 From LW Require Import Base.Outcome Base.Bytes Base.Hex Crypto.AES Crypto.CMAC Mac.Commands Frame.Model
-  Backend.KeyEnvelope Backend.JoinServer Backend.Device Backend.JoinServerProofs Backend.JoinServerWitness.
+  Backend.KeyEnvelope Backend.JoinServer Backend.Device Backend.JoinServerProofs Backend.JoinServerCFList
+  Backend.JoinServerWitness Backend.JoinServerTotal.
 From LWGen Require Import KnownGen.
 Import ListNotations.
 Open Scope N_scope.
@@ -58,13 +60,15 @@ Theorem C16_join_conformant_is : forall cfg r d dn netid devaddr dls rxd cf jn n
    get_keys cfg (d_deveui d) = Found (mkDevKeys (d_nwkkey d) (d_appkey d) (Z.of_N jn)) /\
    get_kek cfg (r_sender r) = Ok nskek /\ kek_supported nskek /\
    get_aslabel cfg (d_deveui d) = Ok aslabel /\ get_kek cfg aslabel = Ok askek /\ kek_supported askek).
-Proof. intros. reflexivity. Qed.
+Proof. exact join_conformant_is. Qed.
 Print Assumptions C16_join_conformant_is.
 
-(* every 16-byte CFList whose type is not 1 (channel-frequency CFLists) is echoed byte for byte *)
-Theorem C16_cflist_channels : forall c, length c = 16%nat -> bytes c -> nth 15 c 0 <> 1 -> cf_canonical c.
-Proof. intros c L B T. right. split; [exact L|]. exact (cflist_channels_rt c L B T). Qed.
-Print Assumptions C16_cflist_channels.
+(* every well-formed CFList is echoed byte for byte (hypothesis [cf_canonical] above) *)
+Theorem C16_cflist : forall c,
+  length c = 16%nat /\ bytes c /\ (nth 15 c 0 = 1 -> nth 12 c 0 = 0 /\ nth 13 c 0 = 0 /\ nth 14 c 0 = 0) ->
+  cf_canonical c.
+Proof. exact cflist_wellformed_canonical. Qed.
+Print Assumptions C16_cflist.
 
 (* a join-request of a known device whose four MIC bytes are not the right ones: MICFailed, nothing else in the answer *)
 Theorem C16_mic_failed : forall cfg r je de dn m dk devaddr dl rxd cf nskek aslabel askek netid joineui,
@@ -142,9 +146,7 @@ Theorem C16_rejoin_frames : forall d rc netid skey,
   rejoin_frame_of d 0 rc (rejoin02_frame d 0 netid rc skey) /\
   rejoin_frame_of d 1 rc (rejoin1_frame d rc) /\
   rejoin_frame_of d 2 rc (rejoin02_frame d 2 netid rc skey).
-Proof.
-  intros d rc netid skey H. split; [apply rejoin02_frame_of; auto|]. split; [apply rejoin1_frame_of|apply rejoin02_frame_of; auto].
-Qed.
+Proof. exact rejoin_frames. Qed.
 Print Assumptions C16_rejoin_frames.
 
 Theorem C16_rejoin_conformant_is : forall cfg r d ty rc frame netid devaddr dls rxd cf jn nskek aslabel askek,
@@ -159,7 +161,7 @@ Theorem C16_rejoin_conformant_is : forall cfg r d ty rc frame netid devaddr dls 
    get_keys cfg (d_deveui d) = Found (mkDevKeys (d_nwkkey d) (d_appkey d) (Z.of_N jn)) /\
    get_kek cfg (r_sender r) = Ok nskek /\ kek_supported nskek /\
    get_aslabel cfg (d_deveui d) = Ok aslabel /\ get_kek cfg aslabel = Ok askek /\ kek_supported askek).
-Proof. intros. reflexivity. Qed.
+Proof. exact rejoin_conformant_is. Qed.
 Print Assumptions C16_rejoin_conformant_is.
 
 (* known finding C16-1: the exception above is needed - there is a conformant rejoin-request (the one of
@@ -195,3 +197,12 @@ Theorem C16_independent_of_order : forall cfg (bs bs' : list body),
   Permutation bs bs' -> Permutation (handle_all cfg bs) (handle_all cfg bs').
 Proof. exact independent_of_order. Qed.
 Print Assumptions C16_independent_of_order.
+
+(* no request body makes the handler model panic (malformed hex, truncated or foreign frames, odd
+   CFLists, out-of-range numbers, unknown message types ...), provided the KEK / AS-label callbacks return *)
+Theorem C16_no_panic : forall cfg b,
+  ((forall l, get_kek cfg l <> Panic /\ get_kek cfg l <> OutOfFuel) /\
+   (forall de, get_aslabel cfg de <> Panic /\ get_aslabel cfg de <> OutOfFuel)) ->
+  handle cfg b <> APanic.
+Proof. exact handle_no_panic. Qed.
+Print Assumptions C16_no_panic.
